@@ -193,6 +193,18 @@ def make_donor(sess: Session, recipe: Any) -> Any:
             return parser().parse(recipe['add_expr'], models.NumberExpr).raw_number_add_expr
         except Exception as e:
             raise Unresolvable(f'donor text rejected: {e}')
+    if 'zombie' in recipe:
+        zs = getattr(sess, 'zombies', [])
+        if recipe['zombie'] >= len(zs):
+            raise Unresolvable('no such deleted node')
+        z = zs[recipe['zombie']]
+        try:
+            dead = z.first_token.store_handle is None
+        except Exception:
+            dead = False
+        if not dead:
+            raise Unresolvable('node is not a deleted one any more')
+        return z
     if 'attached' in recipe:
         node = sess.resolve(recipe['attached'])
         if self_contained(node):
@@ -683,6 +695,10 @@ class Gen:
         if not ms:
             return None
         m = rng.choice(ms)
+        if isinstance(node, models.Transaction) and rng.random() < 0.35:
+            # the payee / narration group, including empty strings and removal
+            name = rng.choice(['payee', 'narration'])
+            return {'op': 'set_val', 't': ref, 'm': name, 'v': rng.choice([None, None, '', 'foo', docgen.string_value(rng)])}
         if isinstance(node, models.CostSpec) and rng.random() < 0.7:
             m = rng.choice([x for x in ms if x.name in ('number_per', 'number_total', 'currency')] or ms)
         v = self.gen_value(node, m)
@@ -782,8 +798,74 @@ class Gen:
             return None
         return {'op': 'read', 't': c[0]}
 
+    def gen_pingpong(self) -> Optional[dict]:
+        """Script of four consecutive claim calls handing one comment from its owner to the neighbour on
+        its other side and back (issued through the two models alternately)."""
+        from .docexec import _claimable_layout
+        rng = self.rng
+        cands = []
+        sur = [(ref, n) for ref, n in self.nodes() if isinstance(n, I.internal.SurroundingCommentsMixin)]
+        for ref, x in sur:
+            for side, other in (('leading', 'trailing'), ('trailing', 'leading')):
+                try:
+                    c = getattr(x, f'raw_{side}_comment')
+                except Exception:
+                    c = None
+                if c is None:
+                    continue
+                for ref2, y in sur:
+                    if y is x or y.token_store is not x.token_store:
+                        continue
+                    try:
+                        if getattr(y, f'raw_{other}_comment') is None and _claimable_layout(y, c, other):
+                            cands.append((ref, side, ref2, other))
+                    except Exception:
+                        pass
+        if not cands:
+            return None
+        ref, side, ref2, other = rng.choice(cands)
+        script = [{'op': 'claim', 't': ref, 'how': f'unclaim_{side}', 'ignore': False},
+                  {'op': 'claim', 't': ref2, 'how': f'claim_{other}', 'ignore': False},
+                  {'op': 'claim', 't': ref2, 'how': f'unclaim_{other}', 'ignore': False},
+                  {'op': 'claim', 't': ref, 'how': f'claim_{side}', 'ignore': False}]
+        if rng.random() < 0.4 and len(ref['p']) >= 2 and isinstance(ref['p'][-1], int):
+            # ... or leave it ownerless in between and let the list that holds the first model claim it
+            script[3] = {'op': 'claim', 't': {'r': ref['r'], 'p': ref['p'][:-1]}, 'how': 'claim_inter'}
+        self.s.script = script[1:]
+        return script[0]
+
     def gen_C(self) -> Optional[dict]:
         rng = self.rng
+        if rng.random() < 0.12:
+            op = self.gen_pingpong()
+            if op is not None:
+                return op
+        lu = getattr(self.s, 'last_unclaimed', None)
+        if lu is not None and lu.claimed and lu.store_handle is not None and rng.random() < 0.65:
+            # the comment found a new owner: let that owner release it again (ping-pong between neighbours)
+            for ref, n in self.nodes():
+                if isinstance(n, I.internal.SurroundingCommentsMixin):
+                    for side in ('leading', 'trailing'):
+                        try:
+                            if getattr(n, f'raw_{side}_comment') is lu:
+                                return {'op': 'claim', 't': ref, 'how': f'unclaim_{side}', 'ignore': False}
+                        except Exception:
+                            pass
+        if lu is not None and not lu.claimed and lu.store_handle is not None and rng.random() < 0.7:
+            # hand the comment that was just released to a neighbour that can reach it (claim ping-pong)
+            from .docexec import _claimable_layout
+            cands = []
+            for ref, n in self.nodes():
+                if isinstance(n, I.internal.SurroundingCommentsMixin) and n.token_store is lu.token_store:
+                    for side in ('leading', 'trailing'):
+                        try:
+                            if getattr(n, f'raw_{side}_comment') is None and _claimable_layout(n, lu, side):
+                                cands.append((ref, side))
+                        except Exception:
+                            pass
+            if cands:
+                ref, side = rng.choice(cands)
+                return {'op': 'claim', 't': ref, 'how': rng.choice([f'claim_{side}', f'claim_{side}', f'reclaim_{side}']), 'ignore': rng.random() < 0.5}
         r = rng.random()
         if r < 0.45:
             c = self.pick(lambda n: isinstance(n, I.internal.SurroundingCommentsMixin), prefer_recent=False)
@@ -791,6 +873,12 @@ class Gen:
                 return None
             how = rng.choice(['claim_leading', 'unclaim_leading', 'claim_trailing', 'unclaim_trailing',
                               'reclaim_leading', 'reclaim_trailing'])
+            if not how.startswith('claim'):
+                # releasing needs something to release: prefer a model that owns such a comment
+                side = 'leading' if 'leading' in how else 'trailing'
+                c2 = self.pick(lambda n: isinstance(n, I.internal.SurroundingCommentsMixin) and getattr(n, f'raw_{side}_comment', None) is not None,
+                               prefer_recent=False)
+                c = c2 or c
             return {'op': 'claim', 't': c[0], 'how': how, 'ignore': rng.random() < 0.5}
         if r < 0.8:
             ws = self.wrappers(True, {'raw_repeated_comments'})
